@@ -40,8 +40,10 @@ def elements():
     for E in element_classes():
         w = ELEMENT_WIDTHS[E.__name__]
         defined = {m.value for m in E}
-        for v in range(1 << w):
-            r = {"enum": E.__name__, "w": w, "v": v, "defined": v in defined, "result": -1, "rname": "", "wbits": w, "back": -1}
+        # every value twice: ascending, then descending - the second time each value comes after all the others (what an
+        # enumeration member remembers of an earlier, undefined value shows when a defined one is serialised afterwards)
+        for v in list(range(1 << w)) + list(range((1 << w) - 1, -1, -1)):
+            r = {"enum": E.__name__, "w": w, "v": v, "defined": v in defined, "result": -1, "rname": "", "wbits": w, "back": -1, "bits": -1}
             try:
                 m = E.from_bits(int2ba(v, length=w)) if hasattr(E, "from_bits") else E(v)
                 if m is None:
@@ -52,6 +54,7 @@ def elements():
                     if hasattr(m, "as_bits"):
                         b = m.as_bits()
                         r["wbits"] = len(b)
+                        r["bits"] = ba2int(b) if len(b) else -1
                         m2 = E.from_bits(b) if hasattr(E, "from_bits") else E(ba2int(b))
                         r["back"] = int(m2.value) if m2 is not None else -2
                     else:
